@@ -282,6 +282,18 @@ def run(ctx):
                 continue
         if st and not f.name.startswith(allowed_prefix):
             extra.append((f, sorted(st)))
+    # a helper that is only ever called by the listed writers (a static function extracted from a parser, say) is part
+    # of them: what matters is who can cause the store
+    changed = True
+    ok_helpers = set()
+    while changed:
+        changed = False
+        for f, flds in list(extra):
+            callers = [cs.caller for cs in cg.callers_of(f.name)]
+            if callers and all(c.name.startswith(allowed_prefix) or c.key in ok_helpers for c in callers):
+                ok_helpers.add(f.key)
+                extra.remove((f, flds))
+                changed = True
     chk.ob('T5', 'configuration-writers', not extra, extra[0][0].where() if extra else '', '',
            'configuration fields are also written by %s (%s)' % (extra[0][0].name if extra else '', extra[0][1] if extra else ''),
            how='only parsers, setDefaults, the destructor and the loader store into %s' % CFG_RECORD)
